@@ -337,6 +337,27 @@ fn c13_range_hash_exact_small_domain() {
             }
         }
     }
+    // inclusion mode: BOTH ranges carry a marker, offsets in any order (also beyond the data: a marker reads nothing)
+    for len in 1..=max_len.min(4) {
+        let data: Vec<u8> = (0..len as u8).map(|i| i.wrapping_mul(37).wrapping_add(11)).collect();
+        let offs: Vec<u64> = (0..=(len as u64 + 2)).chain([48u64, 1 << 33]).collect();
+        for s1 in 0..len as u64 {
+            for l1 in 1..=(len as u64 - s1) {
+                for s2 in 0..len as u64 {
+                    for l2 in 1..=(len as u64 - s2) {
+                        for &m1 in &offs {
+                            for &m2 in &offs {
+                                let rs = vec![R { start: s1, len: l1, marker: Some(m1) }, R { start: s2, len: l2, marker: Some(m2) }];
+                                evals += 1;
+                                nontrivial += 1;
+                                eval_case(&data, &rs, false, "sha256", 1 << 20, &mut counts);
+                            }
+                        }
+                    }
+                }
+            }
+        }
+    }
     // two markers, exclusion mode (marker/marker and marker/range interaction)
     for len in 2..=max_len {
         let data: Vec<u8> = (0..len as u8).map(|i| i.wrapping_mul(37).wrapping_add(11)).collect();
